@@ -111,4 +111,9 @@ theorem tiling_no_inserted_newline (s : List UInt8) (ts : List Tok) (ht : Tiling
 
 example : Tiling f7cSource f7cTokens ∧ ¬ H3 f7cTokens := ⟨f7c_tiling, by decide⟩
 
+/-- regression (C18 F29 / C12-F7, fixed by /repo 'space between `-` and a comment'): a `-` token
+whose whitespace was removed, followed by the comment `--c`, is written `- --c`, not `---c`. -/
+example : (run init [.token [97] (some 1) true none, .token [45] (some 1) true none,
+    .trivia true [45, 45, 99]]).out = [97, 45, 32, 45, 45, 99] := by decide
+
 end DarkluaModel.C03
